@@ -1,5 +1,6 @@
 //! zv - conformance harness: drives the real zeep code on TLC-generated cases and records traces.
 mod absout;
+mod cli;
 mod concretise;
 mod facets;
 mod mutate;
